@@ -20,6 +20,7 @@ afterwards) are compared.
 
 from __future__ import annotations
 
+import copy
 import ctypes
 import importlib
 import importlib.util
@@ -27,6 +28,7 @@ import io
 import itertools
 import json
 import os
+import pickle
 import re
 import sys
 import types
@@ -190,6 +192,18 @@ _FN = re.compile(r"^[\w.]+\(\)")
 
 def cause_key(unit: dict, kind: str, call: str, r: tuple, g: tuple) -> str:
     """Cause-level class of a mismatch (the stable part of the violation signature after the construct)."""
+    fam = unit.get("family")
+    if fam == "o":
+        # the log (state of the passed-in list) or the raising operand differs: one cause, however it shows
+        if r[2] != g[2] or kind.startswith("exception"):
+            return "evaluation"
+        return kind
+    if fam == "h":
+        tag = (unit.get("call_tags") or {}).get(call, "?:?")
+        lvl, what = tag.split(":", 1)
+        if kind == "result" and r[0][1][0] == "steplog" and g[0][1][0] == "steplog":
+            return what + "|" + hier_step_diff(r[0][1][1], g[0][1][1], lvl)
+        return what + "|" + kind
     if kind == "result" and r[0][1][0] == "steplog" and g[0][1][0] == "steplog":
         return "result|" + step_diff(r[0][1][1], g[0][1][1], r[0][1][2])
     sh = unit.get("shapes")
@@ -280,6 +294,61 @@ def step_diff(ref: list, got: list, positional: bool = True) -> str:
     return "length"
 
 
+_ATTR_KIND = {"x": "class-level default", "s": "class-level default", "i": "attribute set by __init__",
+              "n": "method", "m": "overridable method", "p": "property", "z": "absent attribute"}
+
+
+def hier_step_diff(ref: list, got: list, lvl: str) -> str:
+    """Family (h): cause-level description of the first differing step of two apply_seq logs on an instance of
+    the class at level `lvl` of a chain (attribute names end in the level that defines them)."""
+    for r, g in zip(ref, got):
+        if r != g:
+            op, attr = r[0], str(r[1])
+            kind = _ATTR_KIND.get(attr[0], "attribute")
+            rel = ""
+            if attr[-1].isdigit() and lvl.isdigit():
+                rel = "own " if attr[-1] == lvl else "inherited " if attr[-1] < lvl else "subclass-only "
+
+            def cls(x: list) -> str:
+                return "raises-" + str(x[x.index("raises") + 1]) if "raises" in x else "value"
+
+            rc, gc = cls(list(r)), cls(list(g))
+            return f"{op} {rel}{kind}:{rc}=>{gc}" if rc != gc else f"{op} {rel}{kind}:{rc}-differs"
+    return "length"
+
+
+def after(obj: Any, steps: list) -> Any:
+    """Apply ('set', attr, v) / ('del', attr) steps (outcomes ignored) and return the object."""
+    for step in steps:
+        try:
+            if step[0] == "set":
+                setattr(obj, step[1], step[2])
+            elif step[0] == "del":
+                delattr(obj, step[1])
+        except Exception:  # noqa: BLE001, S110
+            pass
+    return obj
+
+
+SIDES: dict[int, dict[str, Any]] = {}  # id(module) -> {module name: module} of the side the module belongs to
+
+
+def pickled(M: Any, obj: Any) -> Any:
+    """pickle round trip of an object of one side: classes are pickled by reference (module name + qualname), so
+    the side's own modules are installed in sys.modules for the duration."""
+    side = SIDES[id(M)]
+    old = {n: sys.modules.get(n) for n in side}
+    sys.modules.update(side)
+    try:
+        return pickle.loads(pickle.dumps(obj))
+    finally:
+        for n, m in old.items():
+            if m is None:
+                sys.modules.pop(n, None)
+            else:
+                sys.modules[n] = m
+
+
 def drive(gen: Any, script: list) -> list:
     """Drive a generator with a script of ('next',) / ('send', v) / ('throw', exc) / ('close',) steps and
     record what each step produced."""
@@ -337,7 +406,8 @@ def apply_seq(obj: Any, steps: list) -> list:
     return log
 
 
-HELPERS: dict[str, Any] = {"Box": Box, "drive": drive, "apply_seq": apply_seq, "nan": float("nan"),
+HELPERS: dict[str, Any] = {"Box": Box, "drive": drive, "apply_seq": apply_seq, "after": after, "pickled": pickled,
+                           "copy": copy, "nan": float("nan"),
                            "inf": float("inf"), "__builtins__": __builtins__}
 
 
@@ -367,6 +437,9 @@ def load_modules(build_dir: str, ref_dir: str, modnames: list[str]) -> tuple[dic
         comp[m] = importlib.import_module(m)
         f = comp[m].__file__ or ""
         assert f.endswith(".so") and os.path.dirname(f) == build_dir, f
+    for side in (comp, ref):
+        for m in side.values():
+            SIDES[id(m)] = side
     return comp, ref
 
 
